@@ -394,7 +394,7 @@ var c12Up time.Duration
 func vC12TimeSub(t, u time.Time) time.Duration { return c12Up }
 
 func c12Config() {
-	vUnwind(1000) // the concrete shape enumeration loops up to 3^6 times
+	vUnwind(100000) // concrete loops only: the shape enumeration visits its inner blocks 3^6 x 6 times (the bound counts block visits per frame)
 	vReplace("(time.Time).Sub", "github.com/lightningnetwork/lnd/contractcourt.vC12TimeSub")
 	if C12_MERGE {
 		vMerge("(*github.com/lightningnetwork/lnd/contractcourt.ChannelArbitrator).shouldGoOnChain")
